@@ -23,7 +23,7 @@ def descs(ctx: Ctx) -> list[dict]:
     for backend in env.BACKENDS:
         for queue in ("single", "dup", "dup-retry", "two", "blocking", "recovery", "recovery-reclaim", "kill", "foreign-kill", "late-finish"):
             out.append(dict(backend=backend, queue=queue, n=2, k=2 if queue == "two" else 1,
-                            bound=1 if queue == "two" else 2))
+                            bound=1 if queue == "two" or (queue == "dup-retry" and backend == env.SQLITE) else 2))
         out.append(dict(backend=backend, queue="dup", n=3, k=1, bound=1))
         out.append(dict(backend=backend, queue="dup", n=4, k=1, bound=0))
         out.append(dict(backend=backend, queue="two", n=4, k=2, bound=0))
